@@ -27,7 +27,7 @@ CHECKS["C06"] = {
     "design_ref": "DESIGN.md section 5, C06",
     "technique": "Verus function contracts on the extracted real text of src/codes/dvbs2.rs against spec tables written from EN 302 307-1",
     "text": "Unbounded (all 21 codes, symbolically) proof that n, n-k, k and q returned by the real functions equal Tables 5a/5b/7a/7b; that every address table has the standard's group count and degree profile, entries below n-k, no repeated entry in a row, and the pinned contents; and that h() never panics and returns exactly the matrix whose information part is {(x + w q) mod (n-k)} per 360-column group and whose parity part is the dual diagonal (quasi-cyclic shift law and column degrees as lemmas).",
-    "note": "Trusted: Verus/z3, the extractor, the standard's tables (n, k, q, degree profile) as transcribed in specs/dvbs2/std.rs.in, SparseMatrix::new / insert_col (external_body). The address tables are pinned to the tree the check was written against. Not decided: 4-cycle freedom, girth, encoder acceptance.",
+    "note": "Trusted: Verus/z3, the extractor, the standard's tables (n, k, q, degree profile) as transcribed in specs/dvbs2/std.rs.in, SparseMatrix::new (external_body); insert_col by the contract verified in the C17 unit. The address tables are pinned to the tree the check was written against. Not decided: 4-cycle freedom, girth, encoder acceptance.",
 }
 CHECKS["C07"] = {
     "engine": "verus",
